@@ -94,6 +94,15 @@ INVALID_OPERATIONS: Dict[str, str] = {
     "VariablesInAllowedPositionRule": "query Q($x: Int) { u(id: $x) { id } }",
     "OverlappingFieldsCanBeMergedRule": 'query Q { u(id: "1") { x: id x: name } }',
     "UniqueInputFieldNamesRule": "mutation M { m(i: {a: 1, a: 2}) }",
+    # documents WITHOUT any operation: the fragments alone must be validated too
+    "fragments-only:FieldsOnCorrectTypeRule": "fragment F on User { id zzz }",
+    "fragments-only:KnownTypeNamesRule": "fragment F on Nope { a }",
+    "fragments-only:NoFragmentCyclesRule": "fragment A on User { ...B }\nfragment B on User { ...A }",
+    "fragments-only:one-valid-one-invalid": "fragment Ok on User { id }\nfragment Bad on Other { name }",
+    # rules that only fire on the document AS A WHOLE
+    "UniqueOperationNamesRule:three": "query Q { a }\nmutation Q { m }\nquery R { a }",
+    "UniqueOperationNamesRule:with-fragment": 'query Q { u(id: "1") { ...F } }\nquery Q { a }\nfragment F on User { id }',
+    "LoneAnonymousOperationRule:two-anonymous": "{ a }\n{ a }",
 }
 
 # documents graphql-core accepts but ariadne-codegen refuses itself (label -> (document, facts))
